@@ -3,6 +3,7 @@ from __future__ import annotations
 
 from spverif.core.util import attempt, exc_sig, documented_errors, pool_uint, rand_uint, rand_bytes, hist_len
 from spverif.ref import pus as R
+from spverif.props import _views as V
 from spverif.ref.crc import crc16
 
 SCRIBBLE = True
@@ -133,6 +134,13 @@ def k_tm(ctx, route, apid, count, service, subservice, msg_counter, dest_id, tim
     ok, rp = attempt(u.pack)
     ctx.check("tm.roundtrip", ok and bytes(rp) == want, "repack", "", case)
     ctx.check("tm.roundtrip", u.crc16 is not None and bytes(u.crc16) == want[-2:], "crc16_attr", "", case)
+    V.sp_views(ctx, "tm.delegated_views", t, want, case, f"{type(t).__name__}/{route}")
+    V.sp_views(ctx, "tm.delegated_views", u, want, case, "PusTm/unpacked")
+    # decoded from a buffer that goes on after the packet: the stored trailer is the packet's, not the buffer's
+    ok, u2 = attempt(tmm.PusTm.unpack, src + (want[:3] if len(want) & 1 else b"\xa5" * 5), len(ts_b))
+    if ctx.check("tm.unpack", ok, "raised_with_following_octets", exc_sig(u2) if not ok else "", case, error=repr(u2)):
+        ok, rp = attempt(u2.pack, recalc_crc=False)
+        ctx.check("tm.roundtrip", ok and bytes(rp) == want and bytes(u2.crc16) == want[-2:] and u2 == inner, "decoded_from_longer_buffer", "", case, observed=bytes(rp)[-8:] if ok else repr(rp))
 
 
 def _octet_diff(a, b, ts_len) -> str:
@@ -271,7 +279,7 @@ def k_view_history(ctx, seed):
         elif op == "wrapper_pack":
             got = bytes(wrapper.pack())
         elif op == "seq_count":
-            f["count"] = r.getrandbits(14)
+            f["count"] = rand_uint(r, 14)
             t.sp_header.seq_count = f["count"]
             continue
         elif op == "pack_cached":
@@ -283,7 +291,7 @@ def k_view_history(ctx, seed):
         elif op == "view":
             got = bytes(t.to_space_packet().pack())
         elif op == "apid":
-            f["apid"] = r.getrandbits(11)
+            f["apid"] = rand_uint(r, 11)
             t.apid = f["apid"]
             continue
         else:
@@ -296,6 +304,9 @@ def k_view_history(ctx, seed):
         if op == "wrapper_pack":
             what = "service17_wrapper_pack"
         ctx.table("view_history_ops", op)
+        V.sp_views(ctx, "tm.view_history", t, want, dict(case, ops=ops), "PusTm/history")
+        if wrapper is not None:
+            V.sp_views(ctx, "tm.view_history", wrapper, want, dict(case, ops=ops), "Service17Tm/history")
         if not ctx.check("tm.view_history", got == want, f"{what}_differs_from_current_fields", _octet_diff(got, want, len(ts)) + ("/after_field_change" if changed else ""),
                          dict(case, ops=ops), observed=got, expected=want):
             return
